@@ -1034,3 +1034,8 @@ CHECKS = [
                  "newline where needed; a+b joins part-wise with a newline unless already ending in one, does not "
                  "change operands; a+=b returns a"),
 ]
+
+
+# (triage 2026-09-27) checks removed because they demand more than the property states:
+#   record-filter -- hierarchical logger-name matching is a statement of the --logging-filter help text, not of the property
+CHECKS = [c for c in CHECKS if c.name not in ('record-filter',)]
